@@ -30,6 +30,7 @@ func c04Main(args []string) error {
 	bigfree := c.fs.Bool("bigfree", false, "prepend one history whose free list exceeds 65535 entries")
 	backups := c.fs.Bool("backups", false, "hot backups through open readers, with write transactions committed between the chunks of the copy")
 	surgery := c.fs.Bool("surgery", false, "run the CLI repair commands on the file directly after commits")
+	selfmoves := c.fs.Bool("selfmoves", false, "about one history in 24 moves a bucket into its own subtree (known finding D4) and ends there")
 	readersAlways := c.fs.Bool("readers", false, "every history holds read transactions open across writer events")
 	c.fs.Parse(args)
 	w, done := openOut(c.out)
@@ -74,6 +75,12 @@ func c04Main(args []string) error {
 		o := histOptions(cr, i)
 		cfg := genCfg{ps: o.ps, txs: 2 + cr.intn(*txs), opsPerTx: *opsPerTx, bigVals: cr.chance(1, 2), readers: cr.chance(1, 2),
 			reopen: cr.chance(1, 2), malformed: cr.chance(1, 2), moves: cr.chance(2, 3)}
+		if *sched > 0 && i%2 == 1 {
+			cfg.faults = true // C13: physical rollbacks under every option schedule
+		}
+		if *selfmoves && i%24 == 7 {
+			cfg.selfmoves, cfg.moves = true, true
+		}
 		if *readersAlways || *backups {
 			cfg.readers = true
 		}
